@@ -29,3 +29,10 @@ pub uninterp spec fn is_utf8(b: Seq<u8>) -> bool;
 // std combinators vstd has no specification for (so that ordinary edits keep compiling and are then DECIDED)
 pub assume_specification<T, E>[ Result::<T, E>::unwrap_or ](r: Result<T, E>, default: T) -> (o: T)
     ensures o == (match r { Ok(v) => v, Err(_) => default });
+
+// ---------------------------------------------------------------------------------------------
+// std integer helpers vstd 0.2026.09.13 has no specification for (trusted; the obvious mathematical meaning).
+// Present so that ordinary edits (saturating_*, checked_*, wrapping_*) keep compiling and are then DECIDED.
+
+pub assume_specification[ i64::saturating_add ](a: i64, b: i64) -> (r: i64) ensures r == (if a + b > i64::MAX { i64::MAX } else if a + b < i64::MIN { i64::MIN } else { (a + b) as i64 });
+pub assume_specification[ i64::saturating_sub ](a: i64, b: i64) -> (r: i64) ensures r == (if a - b > i64::MAX { i64::MAX } else if a - b < i64::MIN { i64::MIN } else { (a - b) as i64 });
